@@ -30,6 +30,9 @@ pub struct Aggregator {
 
     /// Set of running sessions which have entered live mode.
     live_mode: HashSet<SessionId>,
+
+    /// Sent and received bytes of every running session which are already part of the totals.
+    counted_bytes: HashMap<SessionId, (u32, u32)>,
 }
 
 impl Aggregator {
@@ -93,8 +96,7 @@ impl Aggregator {
             }
             TopicLogSyncEvent::SyncFinished { metrics } => {
                 self.session_metrics.insert(session_id, metrics.clone());
-                self.total_bytes_sent += metrics.sent_bytes();
-                self.total_bytes_received += metrics.received_bytes();
+                self.count_session_bytes(session_id, &metrics);
                 Some(SyncEvent::SyncEnded {
                     remote,
                     session_id,
@@ -108,9 +110,8 @@ impl Aggregator {
                 })
             }
             TopicLogSyncEvent::SessionFinished { metrics } => {
+                self.session_metrics.insert(session_id, metrics);
                 self.handle_session_end(session_id);
-                self.total_bytes_sent += metrics.sent_bytes();
-                self.total_bytes_received += metrics.received_bytes();
                 None
             }
             TopicLogSyncEvent::Failed { error } => {
@@ -137,7 +138,32 @@ impl Aggregator {
     fn handle_session_end(&mut self, session_id: SessionId) -> Metrics {
         self.running_sessions = self.running_sessions.saturating_sub(1);
         self.live_mode.remove(&session_id);
-        self.session_metrics.remove(&session_id).unwrap_or_default()
+        let metrics = self.session_metrics.remove(&session_id).unwrap_or_default();
+
+        // Count what the session transferred since its bytes were last added to the totals (the
+        // live phase, or everything if it ended before the sync phase finished).
+        self.count_session_bytes(session_id, &metrics);
+        self.counted_bytes.remove(&session_id);
+
+        metrics
+    }
+
+    /// Adds the bytes of a session's cumulative metrics which were not counted yet to the totals.
+    fn count_session_bytes(&mut self, session_id: SessionId, metrics: &Metrics) {
+        let (sent, received) = self
+            .counted_bytes
+            .get(&session_id)
+            .copied()
+            .unwrap_or_default();
+        self.total_bytes_sent += metrics.sent_bytes().saturating_sub(sent);
+        self.total_bytes_received += metrics.received_bytes().saturating_sub(received);
+        self.counted_bytes.insert(
+            session_id,
+            (
+                metrics.sent_bytes().max(sent),
+                metrics.received_bytes().max(received),
+            ),
+        );
     }
 
     /// Total running sessions for a topic.
